@@ -50,7 +50,7 @@ def gha_jobs(tier):
         for lk in ("b", "f", "bf", "fb", ""):
             w = ["end", "failed before any send", "all methods exhausted", "callback started a new request"]
             if "b" in lk:
-                w += ["completed synchronously", "pending", "answered from DNS"]
+                w += ["completed synchronously", "pending", "answered from DNS", "cancelled or destroyed synchronously"]
             if "f" in lk:
                 w += ["answered from the hosts file"]
             J.append(dict(common, name="gha_start_%s_lk_%s" % (fams[fam], lk or "none"),
@@ -83,8 +83,7 @@ def gha_jobs(tier):
 def gni_jobs(tier):
     J = []
     real = LIB + ["src/lib/ares_free_hostent.c", "src/lib/str/ares_str.c"]
-    common = dict(harness="getnameinfo.c", real=real, support=SUP, unwind=66, leak=True, backend="cadical", mem_gb=6, timeout=240,
-                  fs_array=4100)  # lookup_service's tmpbuf[4096] element-wise: zeroed / written bytes stay constants
+    common = dict(harness="getnameinfo.c", real=real, support=SUP, unwind=66, leak=True, backend="cadical", mem_gb=6, timeout=240)
     fams = {1: "inet", 2: "inet6"}
     classes = {0: "serviceonly", 1: "numerichost", 2: "dns"}
     for fam in (1, 2):
@@ -105,9 +104,10 @@ def gni_jobs(tier):
                                 "pending; service database: error / not found / nameless / names of 4, 32, 33, 40 characters; the "
                                 "callback may start a new request (depth 1)" % (fams[fam], classes[fc])))
         J.append(dict(common, name="gni_start_%s_badsa" % fams[fam], defines=["-DENTRY=0", "-DFAM=%d" % fam, "-DBADSA"],
-                      witnesses=["end", "failed before any send", "valid socket address"],
+                      witnesses=["end", "failed before any send", "valid socket address", "callback started a new request"] +
+                                (["IPv4 address in a larger object"] if fam == 2 else []),
                       bound="ares_getnameinfo with a NULL socket address or ANY sa_family and ANY salen <= the size of the %s object; "
-                            "all flags symbolic" % fams[fam]))
+                            "flags: one of service-only / numeric host+service / DNS" % fams[fam]))
         J.append(dict(common, name="gni_complete_%s" % fams[fam], defines=["-DENTRY=1", "-DFAM=%d" % fam],
                       witnesses=["end", "name found", "domain stripped", "address text instead of a name", "name required but not found",
                                  "cancelled or destroyed", "numeric service", "longest service name that fits", "service name too long",
@@ -120,11 +120,54 @@ def gni_jobs(tier):
     return J
 
 
+def ghbn_jobs(tier):
+    J = []
+    real = LIB + ["src/lib/ares_addrinfo2hostent.c", "src/lib/ares_freeaddrinfo.c", "src/lib/ares_free_hostent.c",
+                  "src/lib/str/ares_str.c"]
+    # list-shaped data (address / alias arrays, node chains) has at most 3 elements here: loops over them get their own bound
+    # (their termination is not a constant for symex once the arrays went through realloc)
+    small = ["sort_addresses.0", "sort_addresses.1", "sort6_addresses.0", "sort6_addresses.1", "get_address_index.0",
+             "get6_address_index.0", "ares_free_hostent.0", "ares_free_hostent.1", "ai_nalias.0", "ai_naddr.0", "hostent_nalias.0",
+             "hostent_naddr.0", "ares_addrinfo2hostent.0", "ares_addrinfo2hostent.1", "ares_freeaddrinfo_cnames.0",
+             "ares_freeaddrinfo_nodes.0", "user_cb.0", "user_cb.1", "add_node.0", "add_cname.0"]
+    common = dict(harness="gethostbyname.c", real=real, support=SUP, unwind=18, unwindset=[l + ":5" for l in small], leak=True,
+                  backend="cadical", mem_gb=6, timeout=240)
+    J.append(dict(common, name="ghbn_start", defines=["-DENTRY=0", "-DNODES=" + q("46"), "-DNCN=1"],
+                  witnesses=["end", "no callback", "completed synchronously", "answered synchronously", "pending",
+                             "callback started a new request"],
+                  bound="ares_gethostbyname from scratch: ANY family value, callback NULL or not; address lookup: synchronous completion "
+                        "with ANY status (result IPv4+IPv6 node, one CNAME on success) / pending; sort list of 0..2 patterns; the "
+                        "callback may start a new request (depth 1)"))
+    J.append(dict(common, name="ghbn_start_oom1", defines=["-DENTRY=0", "-DALLOCFAIL=1"],
+                  witnesses=["end", "no callback", "failed before any send"],
+                  bound="ares_gethostbyname from scratch, the request state cannot be allocated"))
+    shapes = [("4", 0), ("4", 2), ("6", 1), ("44", 0), ("46", 1), ("64", 1), ("66", 2)]
+    if tier != "quick":
+        shapes += [("446", 1), ("664", 0)]
+    for nodes, ncn in shapes:
+        J.append(dict(common, name="ghbn_complete_n%s_cn%d" % (nodes, ncn), defines=["-DENTRY=1", "-DNODES=" + q(nodes), "-DNCN=%d" % ncn],
+                      witnesses=["end", "answer", "cancelled or destroyed", "callback started a new request"] +
+                                (["sorted by the sort list"]),
+                      bound="ares_gethostbyname_callback for the outstanding address lookup: ANY status 0..24; on success a result "
+                            "with address nodes of families '%s' (symbolic addresses) and %d CNAME entries; sort list of 0..2 "
+                            "patterns with any match verdicts; the callback may start a new request (depth 1)" % (nodes, ncn)))
+    kinds = {0: "plain", 1: "localhost", 2: "onion"}
+    for nk in (0, 1, 2):
+        J.append(dict(common, name="ghbn_file_%s" % kinds[nk], defines=["-DENTRY=2", "-DNAMEKIND=%d" % nk], kf_group="ghbn_file",
+                      witnesses=["end", "failed before any send"] + (["found"] if nk != 2 else []) +
+                                (["hosts-file entry completed with loopback addresses"] if nk == 1 else []),
+                      bound="ares_gethostbyname_file for a %s name (name / result pointer may be NULL), family in {INET, INET6, "
+                            "UNSPEC}; hosts file: entry / ENOTFOUND / EFILE / ENOMEM, conversion: host entry / ENOMEM / ENOTFOUND; "
+                            "loopback addresses: success / ENOMEM at once / ENOMEM after the first node" % kinds[nk]))
+    return J
+
+
 def jobs(tier):
     J = []
     J += query_jobs(tier)
     J += gha_jobs(tier)
     J += gni_jobs(tier)
+    J += ghbn_jobs(tier)
     for j in J:
         j["name"] = "compound_" + j["name"]
     return J
